@@ -26,13 +26,13 @@ theorem C11_bound (cfg : Cfg) (evs : List (Env × Ev)) :
     fires everything that has become due, so that afterwards every pending timer — hence the bound of
     every unresolved request — is strictly in the future (a step that exhausts the interpreter's fuel
     reports it).  Together with `C11_bound`: every request is resolved no later than `issued + bound`. -/
-theorem C11_nothing_overdue (cfg : Cfg) (h0 : 0 ≤ cfg.timeout) (evs : List (Env × Ev)) (env : Env) :
+theorem C11_nothing_overdue (cfg : Cfg) (h0 : 0 ≤ cfg.timeout) (h1 : 0 ≤ cfg.retryDelay) (evs : List (Env × Ev)) (env : Env) :
     let st := evs.foldl (fun s e => (step cfg s e.1 e.2).1) ({} : St)
     (∀ e, (∀ dt, e ≠ .advance dt) → NotOverdue st → NotOverdue (step cfg st env e).1) ∧
     (∀ dt, 0 ≤ dt →
       (∀ t ∈ (step cfg st env (.advance dt)).1.timers, (step cfg st env (.advance dt)).1.now < t.due) ∨
       Ob.badOp "fuel" ∈ (step cfg st env (.advance dt)).2) :=
-  ⟨fun e hne h => step_notOverdue cfg h0 _ env e hne h,
+  ⟨fun e hne h => step_notOverdue cfg h0 h1 _ env e hne h,
    fun dt hdt => step_advance_exit cfg _ env dt hdt (reachable_inv cfg evs)⟩
 
 /-- The timer is released with its request: in every reachable state every pending request timer belongs
@@ -46,13 +46,15 @@ theorem C11_timer_released (cfg : Cfg) (evs : List (Env × Ev)) :
   exact ⟨h.timerPend, h.names⟩
 
 /-- A request is armed, at issue, with a timer due at `issued + max(timeout, min_timeout)` (the plain
-    client timeout when no minimum is given), and the bound is never below either of them — so a
+    client timeout when no minimum is given; a no-reply request written at once is born resolved and
+    its timer is cancelled in the same breath), and the bound is never below either of them — so a
     group join (`min_timeout = 35.0` in `_group.py`, read from the source) gets at least 35 s. -/
 theorem C11_min_timeout (cfg : Cfg) (st : St) (b : Nat) (owner : ReqOwner) (expect : Bool) (what : ReqWhat)
     (m : Option Rat) :
     let r := makeRequest cfg st b owner expect what m
-    (∃ q ∈ r.1.reqs, q.k = r.2.1 ∧ q.pending = true ∧ q.issued = st.now ∧ q.due = st.now + boundOf cfg m) ∧
-    ({ what := .mrtb r.2.1, due := st.now + boundOf cfg m } : Timer) ∈ r.1.timers ∧
+    (∃ q ∈ r.1.reqs, q.k = r.2.1 ∧ q.pending = !syncFire st b expect ∧ q.issued = st.now ∧
+        q.due = st.now + boundOf cfg m) ∧
+    (syncFire st b expect = false → ({ what := .mrtb r.2.1, due := st.now + boundOf cfg m } : Timer) ∈ r.1.timers) ∧
     Ob.setTimer (.mrtb r.2.1) (st.now + boundOf cfg m) ∈ r.2.2.1 ∧
     cfg.timeout ≤ boundOf cfg m ∧ (∀ x, m = some x → x ≤ boundOf cfg m) ∧ boundOf cfg none = cfg.timeout ∧
     (clientJoinMinTimeout ≤ boundOf cfg (some clientJoinMinTimeout) ∧ clientJoinMinTimeout = 35) := by
@@ -77,13 +79,15 @@ theorem C11_min_timeout (cfg : Cfg) (st : St) (b : Nat) (owner : ReqOwner) (expe
     split
     · exact Rat.le_refl
     · rename_i hnl; exact Rat.not_lt.mp hnl
-  refine ⟨⟨{ k := st.reqs.length, b := b, issued := st.now, due := st.now + boundOf cfg m, owner := owner }, ?_, ?_⟩,
+  refine ⟨⟨{ k := st.reqs.length, b := b, issued := st.now, due := st.now + boundOf cfg m,
+             pending := !syncFire st b expect, grp := grpOf what, owner := owner }, ?_, ?_⟩,
     ?_, ?_, hle1, hle2, rfl, hle3, by decide +kernel⟩
   · show _ ∈ (makeRequest cfg st b owner expect what m).1.reqs
     rw [hreqs]; exact List.mem_append_right _ (List.mem_singleton.mpr rfl)
   · exact ⟨hk.symm, rfl, rfl, rfl⟩
-  · show _ ∈ (makeRequest cfg st b owner expect what m).1.timers
-    rw [htim, hk]; exact mem_insertTimer.mpr (Or.inl rfl)
+  · intro hs
+    show _ ∈ (makeRequest cfg st b owner expect what m).1.timers
+    rw [htim, hk, hs]; exact mem_insertTimer.mpr (Or.inl rfl)
   · show _ ∈ (makeRequest cfg st b owner expect what m).2.2.1
     rw [hk]; exact hob
 
